@@ -17,7 +17,7 @@ import (
 const simRootDir = "/simfs/api"
 
 var plainNames = []string{"pet", "owner", "tag", "item", "order", "user", "thing", "kind", "error", "record",
-	"node", "tree", "list", "meta", "data", "value", "Pet", "Tag", "category", "photo", "my_thing", "sub-item", "Order2"}
+	"node", "tree", "list", "meta", "data", "value", "Pet", "Tag", "category", "photo", "my_thing", "sub-item", "Order2", "x-ray", "X-Extra"}
 
 // alphabet of the properties: spaces, unicode, '/', '~', '?', '#', brackets and braces (never '%', '.', '"', '\\')
 var exoticNames = []string{"a b", "é", "x/y", "t~k", "q?", "h#h", "b[0]", "c{d}", "ünï cödé", "sp ace/sl~ash",
@@ -281,6 +281,9 @@ func genBundle(r *R, opts FlatOpts, plus bool, thorough bool, force map[string]b
 	}
 	if g.on("caseSiblings") {
 		g.plantCaseSiblings()
+	}
+	if g.on("collide") && len(g.docs) > 1 && !g.on("rootNoDefs") && !g.on("auxOnlyViaShared") && g.r.P(35) {
+		g.plantCollideOpsOnly()
 	}
 	if g.on("mangleTwins") && !g.on("rootNoDefs") && !g.on("auxOnlyViaShared") && !opts.KeepNames {
 		g.plantMangleTwins()
@@ -1593,4 +1596,67 @@ func (g *bundleGen) plantMangleTwins() {
 	if r.P(60) {
 		g.addRootOp("/mangled2", obj{"$ref": mkRef("", "definitions", second)})
 	}
+}
+
+// plantCollideOpsOnly: a $ref-free complex definition of an auxiliary document, named like a root definition, whose only
+// referrers sit under #/paths of the root: a body parameter declared at PATH level on a templated path (the topmost
+// referrer) and one or two operation-level holders.
+func (g *bundleGen) plantCollideOpsOnly() {
+	r := g.r
+	rd := g.docs[0]
+	ad := g.docs[1+r.Intn(len(g.docs)-1)]
+	var base string
+	for _, n := range rd.defNames {
+		if !isPlainIdent(n) {
+			continue
+		}
+		free := true
+		for _, d := range g.docs[1:] {
+			for _, k := range d.defNames {
+				if strings.EqualFold(k, n) {
+					free = false
+				}
+			}
+		}
+		if free {
+			base = n
+			break
+		}
+	}
+	if base == "" {
+		return
+	}
+	name := base
+	if r.P(30) {
+		name = upperFirst(base)
+	}
+	if _, exists := ad.defs[name]; exists {
+		return
+	}
+	ad.defNames = append(ad.defNames, name)
+	ad.refFree[name] = true
+	ad.defs[name] = obj{"type": "object", "properties": obj{"imported": g.primitive(), "z": obj{"type": "array", "items": g.primitive()}}}
+	ref := func() obj { return obj{"$ref": refTo(rd, ad, "definitions", name)} }
+	pth := r.Pick([]string{"/things/{id}", "/a b/{key}", "/plain"})
+	if _, exists := rd.paths[pth]; exists {
+		return
+	}
+	params := []any{obj{"name": "body", "in": "body", "schema": ref()}}
+	if strings.Contains(pth, "{") {
+		pn := pth[strings.Index(pth, "{")+1 : strings.Index(pth, "}")]
+		params = append([]any{obj{"name": pn, "in": "path", "required": true, "type": "string"}}, params...)
+	}
+	pi := obj{"parameters": params}
+	ms := append([]string(nil), methods...)
+	r.Shuffle(len(ms), func(i, j int) { ms[i], ms[j] = ms[j], ms[i] })
+	for _, m := range ms[:r.Range(1, 2)] {
+		op := obj{"responses": obj{r.Pick([]string{"200", "201", "default"}): obj{"description": "ok", "schema": ref()}}}
+		if !g.on("noOpIDs") {
+			id := "opsOnly" + upperFirst(m)
+			op["operationId"] = id
+			g.opIDs[id] = true
+		}
+		pi[m] = op
+	}
+	rd.paths[pth] = pi
 }
